@@ -135,11 +135,59 @@ pub fn run(seed: u64, count: usize, shards: usize, outdir: &str) {
             *hist.entry(String::from("wide")).or_insert(0) += 1;
         }
         r.shuffle(&mut rooms);
+        // every fourth case is DIRECTED at the constraints that always apply: a protected course A (fixed, or enforced in the node) that is
+        // currently small (below its minimum) sits next to a larger course B whose room R is too small; A fits R as it is but not at its
+        // minimum size -- it must neither be cancelled nor shrunk by the constraint sets
+        let directed = !wide && i % 4 == 1;
+        let mut protect_enforced: Option<usize> = None;
+        if directed {
+            courses.clear();
+            a.clear();
+            sizes.clear();
+            let min_a = r.range(8, 40);
+            let att_a = r.range(0, 3);
+            let fixed_a = r.chance(2, 3);
+            let size_a = if att_a == 0 && !fixed_a { 0 } else { att_a };
+            let rr = r.range(size_a.max(1), min_a - 1);
+            let att_b = rr + r.range(1, 12);
+            courses.push(ICourse { min: min_a, max: min_a + r.range(0, 10), instr: vec![], fixed: fixed_a, fbits: 1.0f32.to_bits(), obits: 0.0f32.to_bits() });
+            courses.push(ICourse { min: r.range(0, 5), max: att_b + r.range(0, 10), instr: vec![], fixed: r.chance(1, 6), fbits: 1.0f32.to_bits(), obits: 0.0f32.to_bits() });
+            for _ in 0..att_a {
+                a.push(Some(0));
+            }
+            for _ in 0..att_b {
+                a.push(Some(1));
+            }
+            sizes.push(size_a);
+            sizes.push(att_b);
+            if r.chance(1, 2) {
+                let att_c = r.range(1, rr);
+                courses.push(ICourse { min: 0, max: att_c + 3, instr: vec![], fixed: false, fbits: 1.0f32.to_bits(), obits: 0.0f32.to_bits() });
+                for _ in 0..att_c {
+                    a.push(Some(2));
+                }
+                sizes.push(att_c);
+            }
+            rooms = vec![rr, rr.max(size_a) + r.range(0, 3)];
+            if courses.len() == 3 {
+                rooms.push(sizes[2] + r.range(0, 2));
+            }
+            r.shuffle(&mut rooms);
+            if !fixed_a {
+                protect_enforced = Some(0);
+            }
+            *hist.entry(String::from("directed_protected_course_in_the_always_set")).or_insert(0) += 1;
+        }
+        let np = a.len().max(1);
+        let nc = courses.len();
         let inst = Inst { courses: courses.clone(), parts: vec![Vec::new(); np], rooms: Some(rooms.clone()), style: String::from("gate") };
         let (cs, ps) = build(&inst);
         // node: root, or some shrinks / enforced / cancelled courses
         let mut nd = VNode { cancelled: vec![], enforced: vec![], shrinked: vec![] };
-        for c in 0..(if wide { 0 } else { nc }) {
+        if let Some(c) = protect_enforced {
+            nd.enforced.push(c);
+        }
+        for c in 0..(if wide || directed { 0 } else { nc }) {
             match r.below(8) {
                 0 => {
                     if sizes[c] == 0 && !courses[c].fixed {
